@@ -13,8 +13,10 @@ Anchors (cfdm 1.11.2.0):
   constructs.py           `Constructs.equals`, `_equals_cell_method`,
                           `_equals_coordinate_reference`, `_equals_domain_axis`
 
-The functions mirror the code *after* the repairs proposed in `fixes/C05-*.patch`;
-the behaviour of the unrepaired code is kept in the `…Old` functions.
+The functions mirror the code as it is at /repo HEAD (the five repairs of `fixes/C05-*.patch`
+are in as `fix:` commits; the behaviour before them is kept in the `…Old` functions) plus the
+proposed `fixes/C05-topology-cell-type-compared.patch` (without it: `constructCoreUntagged`).
+The leaf comparison of two numpy arrays, as coded, is in `Model/EqualityLeaf.lean`.
 
 Abstraction.  Strings (property names and values, units, construct keys, cell
 method axes, …) are interned to `Nat`/`Int` by the harness — only their equality
@@ -248,6 +250,10 @@ def clsConnectivity : Nat := 6
 /-- `PropertiesDataBounds` subclasses. -/
 def hasBoundsAPI (cls : Nat) : Bool := cls == clsDim || cls == clsAux || cls == clsDomAnc
 
+/-- Classes with a type tag of their own next to the properties: the `measure` of a cell
+measure, the `cell` of a domain topology, the `connectivity` of a cell connectivity. -/
+def hasTypeTag (cls : Nat) : Bool := cls == clsMeasure || cls == clsTopology || cls == clsConnectivity
+
 structure Construct where
   cls : Nat
   props : Props
@@ -257,6 +263,7 @@ structure Construct where
   geometry : Option Nat
   bounds : Option Sub
   interiorRing : Option Sub
+  /-- the class's own type tag (`hasTypeTag`): measure / cell / connectivity -/
   measure : Option Nat
   deriving DecidableEq, Repr
 
@@ -266,8 +273,24 @@ structure Construct where
 The `external` branch of `PropertiesData.equals` reads the component `'external'`,
 which nothing ever sets (`nc_set_external` writes into the `'netcdf'` component), so
 both sides are always `False` there: netCDF variable names and the external status
-(kept in the record) play no role. -/
+(kept in the record) play no role.
+
+The type tag is compared for all three tagged classes, as the code does after
+`fixes/C05-topology-cell-type-compared.patch` (`DomainTopology.equals` /
+`CellConnectivity.equals` added on the pattern of `CellMeasure.equals`); the code as it is
+compares it for cell measures only: `constructCoreUntagged`. -/
 def constructCore (o : Opts) (x y : Construct) : Bool :=
+  propsEquals o.close (ignoredNames o.ignoreFillValue o.ignoreProps) x.props y.props
+  && optDataEquals o.close o.ignoreDataType o.ignoreFillValue o.ignoreCompression x.data y.data
+  && (!hasBoundsAPI x.cls ||
+        (x.geometry == y.geometry
+         && optSubEquals o x.bounds y.bounds
+         && optSubEquals o x.interiorRing y.interiorRing))
+  && (!(hasTypeTag x.cls) || x.measure == y.measure)
+
+/-- The code as it is (1.11.2.0): `DomainTopology` and `CellConnectivity` inherit
+`PropertiesData.equals`, which knows nothing of `cell` / `connectivity`. -/
+def constructCoreUntagged (o : Opts) (x y : Construct) : Bool :=
   propsEquals o.close (ignoredNames o.ignoreFillValue o.ignoreProps) x.props y.props
   && optDataEquals o.close o.ignoreDataType o.ignoreFillValue o.ignoreCompression x.data y.data
   && (!hasBoundsAPI x.cls ||
@@ -277,7 +300,9 @@ def constructCore (o : Opts) (x y : Construct) : Bool :=
   && (!(x.cls == clsMeasure) || x.measure == y.measure)
 
 /-- `type(self)(source=other, copy=False)` between construct classes: the target
-keeps what its class supports; a dimension coordinate refuses data that are not 1-d. -/
+keeps what its class supports; a dimension coordinate refuses data that are not 1-d.
+The type tag is read through the target class's own accessor (`get_measure` / `get_cell` /
+`get_connectivity`), which a source of another class does not have: it is lost. -/
 def convertTo (cls : Nat) (y : Construct) : Except Exn Construct :=
   if cls == clsDim && (match y.data with | some d => d.arr.shape.length != 1 | none => false) then
     .error .valueError
@@ -287,7 +312,7 @@ def convertTo (cls : Nat) (y : Construct) : Except Exn Construct :=
       geometry := if hasBoundsAPI cls then y.geometry else none
       bounds := if hasBoundsAPI cls then y.bounds else none
       interiorRing := if hasBoundsAPI cls then y.interiorRing else none
-      measure := if cls == clsMeasure then y.measure else none }
+      measure := none }
 
 /-- `x.equals(y, **o)` for two metadata constructs with data
 (`_equals_preprocess`, then the comparison). -/
@@ -352,6 +377,18 @@ def cellMethodCore (close : Int → Int → Bool) (x y : CellMethod) : Bool :=
   x.method == y.method
   && dictEq (fun a b => a == b) x.quals y.quals
   && all2 (dataEquals close true true true) x.intervals y.intervals
+
+/-- What `CellMethod.equals(..., ignore_qualifiers=iq)` leaves to compare:
+`for prop in tuple(ignore_qualifiers) + ('interval',): qualifiers.pop(prop, None)`, and
+`if 'interval' in ignore_qualifiers: return True` before the intervals are looked at
+(`ignoreInterval` = `'interval' in ignore_qualifiers`). -/
+def stripQualifiers (iq : List Nat) (ignoreInterval : Bool) (m : CellMethod) : CellMethod :=
+  { m with quals := m.quals.filter (fun kv => !iq.contains kv.1),
+           intervals := if ignoreInterval then [] else m.intervals }
+
+/-- `CellMethod.equals(other, rtol, atol, ignore_qualifiers=iq)`. -/
+def cellMethodCoreIQ (close : Int → Int → Bool) (iq : List Nat) (ignoreInterval : Bool) (x y : CellMethod) : Bool :=
+  cellMethodCore close (stripQualifiers iq ignoreInterval x) (stripQualifiers iq ignoreInterval y)
 
 /-! ## Coordinate references -/
 
